@@ -1,56 +1,10 @@
 (* Entry points of the correspondence check: run a history of manager operations on the model and
    render what a user of the API can observe as numbers. *)
 Require Import KV.Sdd.Model KV.Sdd.Sem KV.Sdd.Spec.
+Require Export KV.Sdd.History KV.Sdd.Decomp.
 Require Import ZArith.
 
-Definition budspec := option (option N * list bool).   (* None = the unbudgeted twin *)
-
-Inductive op :=
-| OVar (v : N) (pos neg : Q) (k : vkind)
-| OLit (v : N) (pol : bool) (b : budspec)
-| OApply (i j : N) (o : bop) (b : budspec)
-| ONeg (i : N) (b : budspec)
-| OEo (vs : list N) (b : budspec).
-
-Definition mkbud (b : budspec) : budget :=
-  match b with None => unlimited | Some (l, o) => Bud l o 0 end.
-
 Definition FUEL : nat := 200.
-
-Definition rcode {A} (r : res A) : N :=
-  match r with Ok _ => 0 | Err Deadline => 1 | Err NodeBudget => 2 | Fuel => 3 | Panic => 4 end.
-
-(* state of a run: manager, handles produced so far (0 = FALSE for a failed operation),
-   spec formula of every handle *)
-Record rstate := RS { rm : mgr; rh : list N; rf : list form }.
-Definition rinit := RS mgr_new [] [].
-
-Definition hnd (s : rstate) (i : N) : N := nth (N.to_nat i) (rh s) 0.
-Definition frm (s : rstate) (i : N) : form := nth (N.to_nat i) (rf s) FFalse.
-
-Definition exec (s : rstate) (c : M N) (b : budspec) (f : form) : rstate * (N * N * N * N) :=
-  match c (rm s, mkbud b) with
-  | ((m', b'), r) =>
-      let h := match r with Ok h => h | _ => 0 end in
-      let f' := match r with Ok _ => f | _ => FFalse end in
-      (RS m' (rh s ++ [h]) (rf s ++ [f']), (rcode r, h, ticks b', node_count m'))
-  end.
-
-Definition step (s : rstate) (o : op) : rstate * (N * N * N * N) :=
-  match o with
-  | OVar v p n k => (RS (ensure_variable_weights v p n k (rm s)) (rh s) (rf s), (9, 0, 0, node_count (rm s)))
-  | OLit v pol b => exec s (literal v pol) b (FLit v pol)
-  | OApply i j o b => exec s (apply_f FUEL (hnd s i) (hnd s j) o) b
-                        (match o with And => FAnd (frm s i) (frm s j) | Or => FOr (frm s i) (frm s j) end)
-  | ONeg i b => exec s (negate_f FUEL (hnd s i)) b (FNot (frm s i))
-  | OEo vs b => exec s (exactly_one FUEL vs) b (FExactlyOne vs)
-  end.
-
-Fixpoint run_from (s : rstate) (ops : list op) : rstate * list (N * N * N * N) :=
-  match ops with
-  | [] => (s, [])
-  | o :: t => let (s1, r) := step s o in let (s2, rs) := run_from s1 t in (s2, r :: rs)
-  end.
 
 (* truth tables of all handles over variables 0..nv-1: evaluate the arena once per assignment *)
 Definition tables (nv : N) (m : mgr) (hs : list N) : list N :=
@@ -64,19 +18,20 @@ Definition blit (l : lit) : N * N := (fst l, if snd l then 1 else 0).
    per step (code, handle, checkpoints consumed, node count); then per handle:
    model truth table, spec truth table, wmc, models (cubes), gradient *)
 Definition report (nv : N) (ops : list op) (detail : bool) :=
-  let (s, steps) := run_from rinit ops in
+  let (s, steps) := run_from FUEL rinit ops in
   let m := rm s in
   (steps,
    tables nv m (rh s),
    map (fun f => table_of nv (fun sg => feval sg f)) (rf s),
    map (fun h => qr (wmc m h)) (rh s),
    if detail then map (fun h => map (map blit) (enumerate_models m h)) (rh s) else [],
-   if detail then map (fun h => map (fun vg => (fst vg, qr (snd vg))) (wmc_gradient m h)) (rh s) else []).
+   if detail then map (fun h => map (fun vg => (fst vg, qr (snd vg))) (wmc_gradient m h)) (rh s) else [],
+   decomp_ok m).
 
 (* interruption: run `pre`, then the budgeted operation `o` under budget b, then `post`;
    report the step results of o and post and the tables of all handles *)
 Definition interrupted (nv : N) (pre : list op) (o : op) (post : list op) :=
-  let (s0, _) := run_from rinit pre in
-  let (s1, r) := step s0 o in
-  let (s2, rs) := run_from s1 post in
+  let (s0, _) := run_from FUEL rinit pre in
+  let (s1, r) := step FUEL s0 o in
+  let (s2, rs) := run_from FUEL s1 post in
   ([r], rs, tables nv (rm s2) (rh s2)).
